@@ -74,6 +74,8 @@ def sites_of_body(ctx, body, inst, table, wide=False):
                 op, ty = msg[1], msg[4]
                 if op in ('Add', 'Mul') and ty in WIDE and not wide:
                     continue
+                if op == 'Add' and ty in WIDE and wide == 'mul':
+                    continue
                 kind = 'assert:Overflow(%s,%s)' % (op, ty)
             else:
                 kind = 'assert:' + mk
@@ -340,7 +342,7 @@ def run_e1(ctx, roots_pattern, rule='E1-panic', stop_pattern=None, wide=False, e
             if res == 'definite':
                 r.fail(rule, s.key, '%s: %s' % (s.kind, why), detail='reached via ' + path, loc=s.loc)
                 continue
-            if d is not None and d.get('callers'):
+            if d is not None and d.get('callers') is not None:
                 # the reason on file speaks about the callers of this function: a new caller voids it
                 allowed = [re.compile(c) for c in d['callers']]
                 extra = sorted(c for c in callers.get(b.path, ()) if not any(rx.search(c) for rx in allowed))
